@@ -17,8 +17,87 @@ def sel(T):
     return []
 
 
+def snapshot_chain(chk, prog):
+    """bounded history from an empty subscription: publish, pull, partial ack, snapshot, more acks and publishes, seek to the snapshot:
+    afterwards exactly the messages unacknowledged at snapshot time plus everything published since are outstanding"""
+    import z3
+    from gosym.core import And, Or, Not, Implies, PathAbort, is_sym, zbool
+    from gosym import reldb, world, stdlib
+    from gosym.world import run_action, A, action_results
+    import checks.transitions as tr
+    import checks.c05 as c05
+    TEMPLATES = [['pub', 'pub', 'pull', 'ack', 'snap', 'ack', 'pub', 'seek'], ['pub', 'pull', 'ack', 'pub', 'snap', 'pull', 'ack', 'seek']]
+    if chk.thorough:
+        TEMPLATES.append(['pub', 'pub', 'pub', 'pull', 'ack', 'snap', 'pull', 'ack', 'pub', 'seek', 'seek'])
+    for tpl in TEMPLATES:
+        def harness(ex, ob, tpl=tpl):
+            db, t, s = c05.world0(ex, prog)
+            trace = c05.Trace(ex, db, s)
+            npub, last_pull, at_snap = 0, None, None
+            for step in tpl:
+                if step == 'pub':
+                    if trace.publish('', 'm%d' % npub) is not None:
+                        raise PathAbort('publish')
+                    npub += 1
+                elif step == 'pull':
+                    mm = z3.Int('maxm%d' % len(trace.pulls))
+                    ex.assume(z3.And(mm >= 1, mm <= 3))
+                    err, res = trace.pull(mm)
+                    if err is not None:
+                        raise PathAbort('pull')
+                    last_pull = len(trace.pulls) - 1
+                elif step == 'ack':
+                    if last_pull is None:
+                        continue
+                    _, res, _, _ = trace.pulls[last_pull]
+                    sub = ex.choose(2 ** len(res))
+                    ks = [k for k in range(len(res)) if (sub >> k) & 1]
+                    if trace.ack(last_pull, ks) is not None:
+                        raise PathAbort('ack')
+                elif step == 'snap':
+                    k0 = trace.mark()
+                    p = tr.params(ex, 'CreateSnapshotParams', SubscriptionName='projects/p/subscriptions/s', Name='projects/p/snapshots/x', Labels=None)
+                    act, tx, err = run_action(ex, db, A + 'NewCreateSnapshot', [p], '(*' + A + 'CreateSnapshot).Execute')
+                    trace.step_gap(k0)
+                    if err is not None:
+                        raise PathAbort('snapshot')
+                    at_snap = ([r.copy() for r in db.t['Delivery']], stdlib.clock(ex)['nows'][-1])
+                elif step == 'seek':
+                    k0 = trace.mark()
+                    p = tr.params(ex, 'SeekSubscriptionToSnapshotParams', SubscriptionName='projects/p/subscriptions/s', SnapshotName='projects/p/snapshots/x')
+                    act, tx, err = run_action(ex, db, A + 'NewSeekSubscriptionToSnapshot', [p], '(*' + A + 'SeekSubscriptionToSnapshot).Execute')
+                    trace.step_gap(k0)
+                    ob.verify(ex, 'seek-to-snapshot-succeeds', err is None)
+                    if err is not None:
+                        return
+                    now = stdlib.clock(ex)['nows'][-1]
+                    rows_then, t_snap = at_snap
+                    for i, q in enumerate(db.t['Delivery']):
+                        then = rows_then[i] if i < len(rows_then) else None
+                        # retained throughout (no retention expiry between snapshot and seek: that case is C14's)
+                        if then is not None:
+                            retained = then.v['expires_at'] > now
+                            want_out = then.isnull('completed_at')
+                            def dsc(m, rows_then=rows_then):
+                                from gosym import replay as rp_
+                                snaprow = db.t['Snapshot'][-1]
+                                return {'template': tpl, 'ops': c05.concretize_ops(m, trace, []),
+                                        'deliveries_at_snapshot': [{k: rp_.mval(m, r.v[k]) for k in ('id', 'message_id', 'published_at', 'expires_at')} | {'acked': rp_.mval(m, zbool(Not(r.isnull('completed_at'))))} for r in rows_then],
+                                        'deliveries_after_seek': [{k: rp_.mval(m, r.v[k]) for k in ('id', 'published_at', 'expires_at')} | {'acked': rp_.mval(m, zbool(Not(r.isnull('completed_at'))))} for r in db.t['Delivery']],
+                                        'snapshot': {'acked_messages_before': rp_.mval(m, snaprow.v['acked_messages_before']), 'acked_message_ids': [rp_.mval(m, x) for x in snaprow.v['acked_message_ids']]},
+                                        'seek_now': rp_.mval(m, now)}
+                            ob.verify(ex, 'state-at-snapshot-restored[%d]' % i, Implies(retained, ex.eq(q.isnull('completed_at'), want_out)), dsc)
+                        else:
+                            ob.verify(ex, 'published-since-snapshot-stays-outstanding[%d]' % i, Implies(q.v['expires_at'] > now, q.isnull('completed_at')),
+                                      lambda m: {'template': tpl})
+            ob.reached(ex)
+        chk.run('chain[%s]' % ' '.join(tpl), prog, harness, bounds={'template': tpl, 'acks': 'every subset of the last response'}, setup=world.setup, max_paths=200000)
+
+
 if __name__ == '__main__':
     chk = Check('C13')
     prog = load_program()
+    chk.repo_hash = prog.repo_hash
+    snapshot_chain(chk, prog)
     run_property(chk, prog, sel, ['snapshot claim is for ordinary deliveries (message published to the subscription\'s own topic, delivery stamped with the message publish time); dead-letter-forwarded deliveries are outside the claim'])
     chk.finish()
